@@ -513,7 +513,8 @@ class RBool:
             o = _boolish(other)
         elif isinstance(other, int):
             if other not in (0, 1):
-                raise MustRaise("non-boolean constant compared with boolean")
+                # Python compares the integers; the library may refuse, but must not return another outcome
+                flag("boolean compared with a non-boolean constant")
             o = int(other)
         else:
             raise TypeError
